@@ -409,7 +409,20 @@ func (u *Unit) applyContract(fr *frame, st *State, callee *ssa.Function, c *Cont
 	// results
 	var res Value
 	var rvals []Value
-	if tu, ok := resT.(*types.Tuple); ok {
+	memoKey := u.pureMemoKey(st, c, params, resT, name)
+	if memoKey != "" {
+		if m, hit := u.pureMemo[memoKey]; hit {
+			rvals = m
+			if len(rvals) == 1 {
+				res = rvals[0]
+			} else if len(rvals) > 1 {
+				res = TupleV(rvals)
+			}
+		}
+	}
+	if rvals != nil {
+		// same pure callee, same arguments, same heap: same results (see pureMemoKey)
+	} else if tu, ok := resT.(*types.Tuple); ok {
 		for i := 0; i < tu.Len(); i++ {
 			if c.FreshResults[i] && scalarSort(tu.At(i).Type()) == SInt && isPointerLike(tu.At(i).Type()) {
 				rvals = append(rvals, Sc{u.newObject(st), tu.At(i).Type()})
@@ -433,6 +446,12 @@ func (u *Unit) applyContract(fr *frame, st *State, callee *ssa.Function, c *Cont
 			res = u.freshValue(resT, "res_"+sanitize(name))
 		}
 		rvals = []Value{res}
+	}
+	if memoKey != "" {
+		if u.pureMemo == nil {
+			u.pureMemo = map[string][]Value{}
+		}
+		u.pureMemo[memoKey] = rvals
 	}
 	for _, rv := range rvals {
 		if !c.Fresh {
@@ -1049,4 +1068,76 @@ func (u *Unit) scanContractWrites(c *Contract, ws *writeSet, sig *types.Signatur
 			}
 		}
 	}
+}
+
+// pureMemoKey identifies a call of a contracted function that is `pure` (proved to write nothing
+// and allocate nothing visible), has no modifies clause and returns only non-reference scalars, by
+// callee, argument terms and the complete heap version. Two such calls with equal keys get the same
+// result constants: the result of a pure function is taken to be a function of its arguments and
+// the heap (assumption "pure-deterministic": no dependence on map iteration order, time or
+// randomness). Returns "" when the call does not qualify.
+func (u *Unit) pureMemoKey(st *State, c *Contract, params map[string]Value, resT types.Type, name string) string {
+	if !c.Pure || c.ModAll || len(c.Modifies) > 0 || c.Fresh || u.ctx.inQuant > 0 || resT == nil {
+		return ""
+	}
+	for _, f := range c.FreshResults {
+		if f {
+			return ""
+		}
+	}
+	okT := func(t types.Type) bool {
+		if isPointerLike(t) {
+			return false
+		}
+		switch b := t.Underlying().(type) {
+		case *types.Basic:
+			return b.Info()&(types.IsBoolean|types.IsNumeric|types.IsString) != 0
+		}
+		return false
+	}
+	if tu, ok := resT.(*types.Tuple); ok {
+		if tu.Len() == 0 {
+			return ""
+		}
+		for i := 0; i < tu.Len(); i++ {
+			if !okT(tu.At(i).Type()) {
+				return ""
+			}
+		}
+	} else if !okT(resT) {
+		return ""
+	}
+	var names []string
+	for k := range params {
+		names = append(names, k)
+	}
+	sort.Strings(names)
+	var b strings.Builder
+	b.WriteString(name)
+	for _, k := range names {
+		switch params[k].(type) {
+		case Sc, SliceV, LocPtr, nil:
+		default:
+			return ""
+		}
+		b.WriteString("|" + k + "=" + describeValue(params[k]))
+	}
+	fmt.Fprintf(&b, "|hid=%d|alloc=%s+%d", st.Hid, st.Alloc.S, st.AllocOff)
+	var fams []string
+	for f := range st.Heap {
+		fams = append(fams, f)
+	}
+	sort.Strings(fams)
+	for _, f := range fams {
+		b.WriteString("|" + f + "=" + st.Heap[f].S)
+	}
+	var gh []string
+	for g := range st.Ghost {
+		gh = append(gh, g)
+	}
+	sort.Strings(gh)
+	for _, g := range gh {
+		b.WriteString("|" + g + "=" + st.Ghost[g].S)
+	}
+	return b.String()
 }
